@@ -26,8 +26,9 @@ def build(ctx):
     im.replace("for benefit in &mut benefits {", "let mut __i: usize = 0;\n    while __i < benefits.len() {\n        let __k = __i;\n        __i += 1;\n        let benefit = &mut benefits[__k];", 'R21')
     im.replace("leftover_trade_confs\n                        .iter()\n                        .enumerate()\n                        .position(|(i, t_)| t_ == t && !indexes.contains(&i))\n                        .unwrap();",
                "hole_position(&leftover_trade_confs, t, &indexes)\n                        .unwrap();", 'H')
+    im.sub(r'(?s)warn \+= &format!\((.*?)\);', r'crate::str_append(&mut warn, format!(\1));', 'H', required=True)
     use_et = "use crate::rust_decimal::Decimal;\nuse crate::time::Date;\nuse crate::util::basic::SError;\n"
-    use_im = ("use crate::rust_decimal::Decimal;\nuse crate::time::Date;\nuse crate::util::basic::SError;\nuse crate::portfolio::TxAction;\n"
+    use_im = ("use vstd::multiset::Multiset;\nuse vstd::std_specs::iter::IteratorSpec;\nuse crate::stdx::*;\nuse crate::rust_decimal::Decimal;\nuse crate::time::Date;\nuse crate::util::basic::SError;\nuse crate::portfolio::TxAction;\n"
               "use crate::peripheral::broker::BrokerTx;\nuse crate::peripheral::broker::etrade::BenefitEntry;\n")
     per = (mod('broker', mod('broker_tx', btx.text(), '') + "pub use self::broker_tx::*;\n" + mod('etrade', use_et + et.text()))
            + mod('etrade_plan_pdf_tx_extract_impl', use_im + im.text()))
